@@ -106,7 +106,7 @@ class BaseFiles(Generic[Interface]):
             if not if_modified_since:
                 raise ValueError("Empty date value")
             modified_time = parsedate_to_datetime(if_modified_since).timestamp()
-        except ValueError:
+        except (ValueError, OverflowError):
             return False
 
         return int(last_modified) <= int(modified_time)
